@@ -7,6 +7,7 @@ Engines (coq/Run/C12.v):
  1203 chain which spk f1 f2   the class-level from_scriptPubKey matchers (which 0 = P2PKH with its two flags)
  1204 chain which data ver    the from_bytes constructors / from_pubkey
  1205 chainA which data chainB   an address object created under A, str()/to_scriptPubKey() under B
+ 1206 chain x|n                 CBitcoinAddress(<bytes object> | <int>): not text; must not yield an address
 Text is a list of code points.  Valid address strings are built with the reference encoders below
 (own Base58 alphabet / Bech32 charset literals + hashlib), never with /repo, so a mutated tree
 cannot bend the inputs.
@@ -40,7 +41,7 @@ RULE = ('SelectParams histories of 0..6 names (the four chains + empty, wrong-ca
         'witness versions 1..16 with program lengths 2..40; Base58Check strings with payload lengths 0..40 and '
         'table / secret-key / random version bytes; single substitutions, deletions, insertions, non-ASCII, NUL, '
         'whitespace, empty text; constructors with lengths 0,19,20,21,32,33 and versions around the table; all 16 '
-        'chain pairs for objects that outlive a chain switch. Every case is constrained (the SPEC verdict is never '
+        'chain pairs for objects that outlive a chain switch; bytes / int arguments to CBitcoinAddress. Every case is constrained (the SPEC verdict is never '
         '"unconstrained"); distinct by case text')
 
 NAMES = ['mainnet', 'testnet', 'signet', 'regtest']
@@ -355,4 +356,10 @@ def generate(rng, tier, boost):
                     for n in ((20, 32) if which == 2 else (20,)):
                         cases.append((1205, [ca, which, rbytes(rng, n), cb]))
                 cases.append((1205, [ca, rng.randrange(3), rbytes(rng, rng.choice([0, 19, 21, 31, 33])), cb]))
+        # not text at all: bytes objects (incl. the ASCII bytes of valid addresses) and ints
+        for c in range(4):
+            for b in (b'', b'1', rbytes(rng, 5), text(c, 0, rbytes(rng, 20)).encode(), text(c, 2, rbytes(rng, 20)).encode()):
+                cases.append((1206, [c, b]))
+            for n in (0, 5, -1, rng.getrandbits(80)):
+                cases.append((1206, [c, n]))
     return cases
